@@ -22,7 +22,7 @@ RULE = (
     "Hypothesis: a compound operator (dot, inner, outer, cross, perp, transpose, tr, det, inv, cofac, dev, skew, sym, "
     "diag, diag_vector) or a compound_expressions helper is drawn first (focus stratification), then operands of every "
     "admissible shape (vectors 1-4, square matrices 1-4, rectangular m x n, rank 3) built from tensor coefficients, "
-    "constants, list tensors with zeros, scaled sums, operands with a free index, or nested compound expressions; "
+    "constants, list tensors with zero rows, matrices written entry by entry with literal zeros, scaled sums, operands with a free index, or nested compound expressions; "
     "real and complex data. non-trivial = operand rank >= 1 and dimension >= 2 and the value is not identically "
     "zero; distinct = distinct recipe."
 )
@@ -67,7 +67,7 @@ class W:
             if shape:
                 opts += ["list"]
             if len(shape) == 2:
-                opts += ["T", "matmul", "outer"]
+                opts += ["T", "matmul", "outer", "sparse", "sparse"]
                 if shape[0] == shape[1]:
                     opts += ["sym", "skew"]
             if len(shape) == 1:
@@ -93,6 +93,16 @@ class W:
                 else:
                     items.append(self.operand(shape[1:], 0))
             return ["list", items]
+        if k == "sparse":
+            # a matrix written entry by entry with literal zeros (rotation / permutation / skew patterns)
+            rows = []
+            for _ in range(shape[0]):
+                row = []
+                for _ in range(shape[1]):
+                    z = draw(st.integers(0, 5))
+                    row.append(["zero", []] if z <= 1 else (["lit", draw(st.sampled_from([1, -1, 2, 0.5]))] if z == 2 else self.operand((), 0)))
+                rows.append(["list", row])
+            return ["list", rows]
         if k == "T":
             return ["T", self.operand(shape[::-1], d)]
         if k == "matmul":
